@@ -23,7 +23,7 @@ pub enum Event {
 }
 
 pub struct Scheduler {
-    explore: Option<mpsc::UnboundedSender<Event>>,
+    explore: Mutex<Option<mpsc::UnboundedSender<Event>>>,
     /// requests issued by each device since `reset_counts`
     counts: Mutex<BTreeMap<usize, u64>>,
     /// total per kind (evidence)
@@ -34,12 +34,18 @@ pub struct Scheduler {
 
 impl Scheduler {
     pub fn free() -> Self {
-        Scheduler { explore: None, counts: Default::default(), kinds: Default::default(), trace: Default::default() }
+        Scheduler { explore: Mutex::new(None), counts: Default::default(), kinds: Default::default(), trace: Default::default() }
     }
 
-    pub fn explore() -> (Self, mpsc::UnboundedReceiver<Event>) {
-        let (tx, rx) = mpsc::unbounded_channel();
-        (Scheduler { explore: Some(tx), counts: Default::default(), kinds: Default::default(), trace: Default::default() }, rx)
+    /// Switch to explore mode: every gate call is reported on `tx` and waits
+    /// for its permit.
+    pub fn set_explore(&self, tx: mpsc::UnboundedSender<Event>) {
+        *self.explore.lock().unwrap() = Some(tx);
+    }
+
+    /// Back to free mode.
+    pub fn set_free(&self) {
+        *self.explore.lock().unwrap() = None;
     }
 
     pub fn reset_counts(&self) {
@@ -68,7 +74,8 @@ impl Scheduler {
         if n > REQUEST_BOUND {
             panic!("{}", BOUND_PANIC);
         }
-        if let Some(tx) = &self.explore {
+        let tx = self.explore.lock().unwrap().clone();
+        if let Some(tx) = tx {
             let (ptx, prx) = oneshot::channel();
             if tx.send(Event::Parked { device, kind, permit: ptx }).is_ok() {
                 // a dropped permit means the schedule was abandoned: park forever
